@@ -13,7 +13,7 @@ Per run:
      indices of disagreeing cases;
   5. verdict + evidence/<id>.json.
 """
-import argparse, json, os, re, subprocess, sys, time, glob, hashlib, shutil
+import glob, argparse, json, os, re, subprocess, sys, time, glob, hashlib, shutil
 from concurrent.futures import ThreadPoolExecutor
 
 V = os.path.dirname(os.path.dirname(os.path.abspath(__file__)))
@@ -310,6 +310,18 @@ def main(REG):
         rc_g, out_g, _ = sh([os.path.join(V, "lib", "run_gotrans.sh")], timeout=600)
         if rc_g != 0:
             gt_msg = out_g[-800:]
+        else:
+            # targets that left the translatable subset are skipped one by one (their definition is missing from
+            # coq/gen/Gen.v): only the properties whose proofs mention the target are concerned
+            mine = ""
+            for fn in [os.path.join(COQ, cfg["props"])] + sorted(glob.glob(os.path.join(COQ, "proofs", "Gen%s*.v" % prop))):
+                try:
+                    mine += open(fn).read()
+                except OSError:
+                    pass
+            lost = [m for m in re.finditer(r"gotrans: target (\w+) not translated: ([^\n]*)", out_g) if re.search(r"\b" + m.group(1) + r"\b", mine)]
+            if lost:
+                gt_msg = "; ".join("%s: %s" % (m.group(1), m.group(2)) for m in lost)[:800]
     pr = prove(cfg["props"], timeout=cfg.get("proof_timeout", 2400))
     obligations = len(pr["theorems"])
     discharged = obligations if pr["ok"] and not bad else 0
